@@ -169,6 +169,11 @@ def run(ctx):
                        'of the handler and at its return `local queue empty <=> task not registered` holds (the handler, entered with the task '
                        'unregistered, has emptied the queue before its first callback and takes nothing off it afterwards); a decision '
                        'taken from the registration state of the task itself needs no such agreement', floor=3)
+    ctx.rule('R-C12i', 'WRAP-SAFE SEQUENCE NUMBERS: the submission counters are free-running and wrap; every test that compares two of their '
+                       'values (the counters, snapshots of them, differences kept in locals; found by role) decides by their sequence order: '
+                       'evaluated with C integer arithmetic over boundary vectors around 2^(w-1) and 2^w its truth is invariant under a common '
+                       'shift of the counter values across the wrap and is that of the difference of the full counter width w (an equality, '
+                       'or an ordering of the signed w-bit difference) -- all submitted items complete for submission programs of any length', floor=1)
     ctx.section(thread_bound)
     ctx.section(callbacks)
     ctx.section(queues)
@@ -178,6 +183,7 @@ def run(ctx):
     ctx.section(local)
     ctx.section(local_agreement)
     ctx.section(teardown)
+    ctx.section(wrap_safe)
 
 
 # ------------------------------------------------------------------------------------------------------------------
@@ -879,3 +885,44 @@ def teardown(ctx):
                           'completion; knowledge about the done queue at the call (E empty, N non-empty, ? none): %s%s'
                           % (TEARDOWN[kind], what, know, '' if not bad else '; NOT known empty on every path'),
                    path=path_to(g, bad[0]) if bad else None, fn=root.q)
+
+
+# ------------------------------------------------------------------------------------------------------------------
+# R-C12i
+# ------------------------------------------------------------------------------------------------------------------
+
+def wrap_safe(ctx):
+    """The sequence numbers are free-running counters of a fixed width: a pool that lives long enough wraps them, with head
+    still below the wrap and tail already past it.  `All submitted items complete ... for all submission programs` needs every
+    decision taken from two counter values (is there work for me up to my snapshot, is work left over) to be the same decision
+    before, across and after the wrap.  Sites, by role: in every root of the iv_work code (helpers inlined, normalised) every
+    branch condition and every relational expression that reads at least two counter values -- the members that play head / tail
+    (h12.schema), locals that are copies of them, locals computed from them.  Each is *evaluated* (h12.wrap_safe) rather than
+    matched: any spelling whose value depends only on the w-bit modular difference passes."""
+    prog = ctx.prog
+    P = Preds(prog)
+    S = P.S
+    P.need('seq_head', 'seq_tail')
+    keys = (S.seq_head, S.seq_tail)
+    workers = {c[0].q for c in pool_contexts(prog, work_site)}
+    if not workers:
+        raise AnalysisBroken('worker: no root calls a work function and touches a pool')
+    for root in h.module_roots(prog):
+        g = h.context_of(prog, root)
+        sv = h.SeqValues(g, keys)
+        width = h.counter_width(g, keys)
+        res = {}
+        for loc, x in h.seq_compare_sites(g, sv):
+            try:
+                v = h.wrap_safe(x, sv, width) if width else None
+            except h.CUndecided as u:
+                raise AnalysisBroken('%s: comparison of sequence numbers at %s cannot be evaluated: %s (%s)' % (root.name, loc, canon(x), u))
+            if v is not None:
+                res.setdefault(loc, []).append((x, v))
+        if root.q in workers and not res:
+            raise AnalysisBroken('worker %s: no test that compares the sequence numbers found (how far does it drain?)' % root.name)
+        for loc, vs in sorted(res.items()):
+            bad = [(x, v) for (x, v) in vs if not v[0]]
+            x, v = (bad or vs)[0]
+            ctx.ob('R-C12i', '%s:sequence-numbers-compared-wrap-safely' % root.name, not bad, loc=loc,
+                   detail='`%s` (casts not shown), counters %d bits wide: %s' % (canon(x), width, v[1]), fn=root.q)
